@@ -8,7 +8,7 @@ Workloads: (grid) a record of n bytes carried by exactly k input packets, n x k 
 """
 import random
 
-from vlib import e2e, engine, gen, netsynth as ns, outparse, scene, suites, tcpcap, tlssynth
+from vlib import quicsynth, e2e, engine, gen, netsynth as ns, outparse, scene, suites, tcpcap, tlssynth
 
 NS = [0, 1, 2, 3, 7, 8, 9, 15, 16, 17, 100, 1459, 1460, 1461, 2920, 16383, 16384]
 
@@ -47,6 +47,8 @@ def build(tier, seed):
     nsw = 48 if thorough else 24
     for j in range(nsw):        # first: the slowest cases
         cases.insert(j, {"id": f"sweep-{j}", "kind": "sweep", "j": j, "of": nsw})
+    for j in range(32 if thorough else 16):
+        cases.insert(j, {"id": f"usweep-{j}", "kind": "usweep", "j": j})
     for i in range(9000 if thorough else 500):
         cases.append({"id": f"any-{i}", "kind": "any", "i": i})
 
@@ -54,6 +56,8 @@ def build(tier, seed):
         rng = random.Random(engine.subseed("C06", seed, case["id"]))
         if case["kind"] == "sweep":
             return eval_sweep(case, rng)
+        if case["kind"] == "usweep":
+            return eval_usweep(case, rng)
         return eval_grid(case, rng) if case["kind"] == "grid" else eval_any(case, rng)
 
     return dict(cases=cases, evalfn=evalfn, level="exploration", min_nontrivial=150,
@@ -116,6 +120,47 @@ def eval_grid(case, rng):
     out["nontrivial"] = True
     if msgs:
         return dict(out, v="violated", msg=f"{suites.VNAME[v]} {name} n={n} k={k_eff} dir={d}: " + "; ".join(msgs[:3]), files=dict(files, **{"out.pcapng": res.out}))
+    return dict(out, v="held")
+
+
+def eval_usweep(case, rng):
+    """the same for exported QUIC datagrams: 16 connections (a second family of 16 over IPv4 in the thorough tier) between the same endpoints, each sending 4096
+    datagrams whose STREAM data is the 2-byte counter value, so that the UDP checksum sum of the exported datagrams takes every residue once - including the one
+    that folds to 0xFFFF and must be transmitted as 0xFFFF, not 0x0000 (RFC 768; a zero UDP checksum is not even legal over IPv6)"""
+    fam, j = divmod(case["j"], 16)
+    lo = j * 4096
+    s_ = quicsynth.QSpec(suite=[0x1301, 0x1303][j % 2], offered=(([0x1301, 0x1303][j % 2]), 0x1302))
+    s_.pn_len_mode = "rand"
+    d0 = "cs"[j % 2]
+    off = 0
+    app = []
+    for v_ in range(lo, lo + 4096):
+        app.append((d0, [[("stream", 0 if d0 == "c" else 3, v_.to_bytes(2, "big"), {"off": off or None, "fin": False, "explicit_len": bool(v_ & 1)})]]))
+        off += 2
+    s_.app = app
+    qc = quicsynth.build_qconn(s_, rng)
+    v6 = fam == 0
+    base = tcpcap.default_ep(5, v6, 443)
+    ep = tcpcap.Endpoints(base.cmac, base.smac, base.cip, base.sip, 50000, 443)
+    fl = scene.quic_flow(qc, ep)
+    items = scene.stamp(scene.merge([fl], rng, "concat"), rng, "plain")
+    res, files, argv = e2e.run_capture(scene.capture(items), scene.keylog_text([fl], rng), cpu=600)
+    out = {"cls": ["usweep", fam, j], "tags": ["usweep"], "sample": {"case": case["id"], "ip": "v6" if v6 else "v4", "stream_data_values": [lo, lo + 4095]}}
+    fail = e2e.run_failed(res)
+    if fail:
+        return dict(out, v="inconclusive" if fail.startswith("INCONCLUSIVE") else "violated", msg=fail, files=files)
+    an = outparse.Analysis(res.out)
+    msgs = strict_msgs(an)
+    got = gen.flow_output(an, fl)
+    if got != qc.expect:
+        msgs.append(f"exported {len(got)} datagrams, the endpoints sent {len(qc.expect)} with stream data")
+    zero = [p_ for p_ in an.pkts if p_.proto == 17 and p_.raw[14 + (40 if v6 else 20) + 6:14 + (40 if v6 else 20) + 8] == b"\x00\x00"]
+    if zero:
+        msgs.append(f"{len(zero)} exported datagram(s) carry UDP checksum 0x0000 ('not computed' over IPv4, illegal over IPv6): a checksum that computes to zero is transmitted as 0xFFFF")
+    out["mon"] = {"strict_oracle_outputs": 1, "output_packets": len(an.pkts), "usweep_datagrams_checksummed": len(an.pkts)}
+    out["nontrivial"] = len(an.pkts) >= 4096
+    if msgs:
+        return dict(out, v="violated", msg=f"UDP checksum sweep, stream data values {lo}..{lo + 4095}: " + "; ".join(msgs[:3]), files=dict(files, **{"out.pcapng": res.out}))
     return dict(out, v="held")
 
 
